@@ -50,6 +50,11 @@ func octal(s string) string {
 
 func evalCallVals(d callValsCase) (cl string, il string) {
 	v := unhexAll([]string{d.Value})[0]
+	printed := v
+	if d.Mode != "api" {
+		// RAW is the output of an sh: command: Task trims a trailing newline from it — what is handed over is what RAW holds
+		v = strings.TrimSuffix(strings.TrimSuffix(v, "\r\n"), "\n") // HandleDynamicVar: first "\r\n", then "\n"
+	}
 	cl = fmt.Sprintf("vars.callmon %s %s", d.Mode, hx(v))
 	defer func() {
 		if r := recover(); r != nil {
@@ -64,7 +69,7 @@ func evalCallVals(d callValsCase) (cl string, il string) {
 	dir := filepath.Join(base, fmt.Sprintf("cv%d-%d", os.Getpid(), cvSeq))
 	os.MkdirAll(dir, 0o755)
 	defer os.RemoveAll(dir)
-	raw := varsYamlQ("printf '" + octal(v) + "'")
+	raw := varsYamlQ("printf '" + octal(printed) + "'")
 	tf := "version: '3'\nsilent: true\nvars:\n  Y: " + cliTaskfileVarY + "\ntasks:\n" +
 		"  inner:\n    cmds:\n      - " + varsYamlQ("printf '%s' {{shellQuote .M}}") + "\n" +
 		"  cmd:\n    vars:\n      RAW: {sh: " + raw + "}\n    cmds:\n      - task: inner\n        vars: {M: '{{.RAW}}'}\n" +
